@@ -179,8 +179,13 @@ def gen(tier, rng):
     # random long vectors
     for _ in range(300 if q else 6000):
         n = rng.randrange(2, 400)
-        ids = rng.sample(range(0, 60), rng.randrange(1, 9))
-        dt = rng.pick(dts)
+        # id range: dense small alphabets, and sparse large ids (NumPy and the helpers switch
+        # algorithms on the ratio of the id range to the number of items)
+        R = rng.pick([60, 60, 5000, 60000, 1000000])
+        ids = rng.sample(range(0, R), rng.randrange(1, 9))
+        dt = rng.pick(dts if R <= 60000 else [d for d in dts if d != 'uint16'])
+        if R > 60:
+            n = rng.pick([n, rng.randrange(1, 8)])
         sc = [rng.pick(ids) for _ in range(n)]
         t = rng.randrange(4)
         if t == 0:
@@ -189,9 +194,11 @@ def gen(tier, rng):
                 c['ids'] = sorted(rng.sample(range(5000), n))
             yield c
         elif t == 1:
-            yield dict(p=PID, op='sic', sc=sc, cl=rng.sample(range(0, 60), rng.randrange(1, 8)), dtype=dt)
+            cl = rng.sample(range(0, R), rng.randrange(1, 8 if R == 60 else 70)) + rng.sample(ids, rng.randrange(0, len(ids) + 1))
+            rng.shuffle(cl)
+            yield dict(p=PID, op='sic', sc=sc, cl=cl, dtype=dt)
         elif t == 2:
             yield dict(p=PID, op='gmean', sc=sc, arr=[rng.randrange(-50, 50) for _ in range(n)], dtype=dt)
         else:
-            lookup = rng.sample(range(0, 200), rng.randrange(1, 30))
+            lookup = rng.sample(range(0, max(R, 200)), rng.randrange(1, 30))
             yield dict(p=PID, op='index_of', arr=[rng.pick(lookup) for _ in range(n)], lookup=lookup)
